@@ -69,7 +69,7 @@ PROPS = {
         verus=['pmtiles_dir', 'pmtiles_dir_dec', 'varint_pbf', 'tile_bbox', 'tile_index', 'block_index', 'mbtiles_pyramid', 'versatiles_stream', 'versatiles_writer', 'pmtiles_writer'],
         kani=['pmtiles_codec', 'versatiles_codec', 'tile_bbox', 'tile_bbox_iter'],
         not_decided=[
-            'end-to-end write-then-read through async I/O: write_block (incl. the de-duplication callback) and the section layout of PMTilesWriter::write_to_writer are under contract; write_blocks, the versatiles header and meta writes, and the completeness of the PMTiles entry list (every streamed tile has an entry) are not; the composition writer -> file -> reader is not stated as one theorem',
+            'end-to-end write-then-read through async I/O: write_block (incl. the de-duplication callback) and the section layout of PMTilesWriter::write_to_writer are under contract; the versatiles header and meta writes, completeness of write_blocks (every non-empty block is listed) and of the PMTiles entry list (every streamed tile has an entry) are not; the composition writer -> file -> reader is not stated as one theorem',
             'MBTiles (SQL), tar and directory (file names), getters.rs dispatch',
             'BlockIndex::as_blob / get_bbox_pyramid (HashMap iteration); the outer size search of as_directory (float loop)',
         ],
